@@ -155,6 +155,14 @@ func registerHook(in *Interp) {
 		th.ex.spawn(a[1], nil, th.str(a[0], "name"))
 		return nil
 	})
+	in.reg(h+"MutexLock", func(th *Thread, fn *ssa.Function, a []Value) Value {
+		p := a[0].(*Value)
+		if p == nil {
+			panic(th.ex.in.runtimeError("invalid memory address or nil pointer dereference"))
+		}
+		th.mutexLock((*p).(*Mutex))
+		return nil
+	})
 	in.reg(h+"Quiesce", func(th *Thread, fn *ssa.Function, a []Value) Value {
 		th.state = tsQuiesce
 		th.ex.reschedule(th, "quiesce")
